@@ -1,85 +1,37 @@
 package main
 
 import (
+	"encoding/json"
 	"flag"
 	"fmt"
-	"time"
-
-	"github.com/thanos-community/promql-engine/verifshim"
+	"os"
 
 	"verif/harness/core"
-	"verif/harness/explore"
+	"verif/harness/gen"
 )
-
-func data() []core.SeriesSpec {
-	mk := func(l string, base float64, n int) core.SeriesSpec {
-		s := core.SeriesSpec{L: l}
-		for i := 0; i < n; i++ {
-			s.S = append(s.S, core.Pt{T: int64(i) * 30000, V: core.F(base + float64(i))})
-		}
-		return s
-	}
-	return []core.SeriesSpec{mk(`a{l="0",m="0"}`, 1, 40), mk(`a{l="0",m="1"}`, 10, 40), mk(`a{l="1"}`, 100, 40), mk(`b{l="0"}`, 5, 40)}
-}
 
 func main() {
 	q := flag.String("q", "a", "query")
-	D := flag.Int("d", 1, "deviation bound")
-	steps := flag.Int("n", 2, "steps")
-	procs := flag.Int("procs", 4, "GOMAXPROCS")
-	ev := flag.String("event", "", "event")
-	pp := flag.Bool("pp", false, "pool points")
+	ds := flag.String("d", "D1", "dataset")
+	start := flag.Int64("start", 10000, "")
+	step := flag.Int64("step", 30000, "")
+	n := flag.Int("n", 11, "")
+	lb := flag.Int64("lb", 0, "")
+	qlb := flag.Int64("qlb", 0, "")
+	opt := flag.String("opt", "none", "")
+	procs := flag.Int("procs", 4, "")
 	flag.Parse()
-	verifshim.SetControlled(true)
-	sc := &explore.Scenario{Name: "spike", Case: core.Case{Q: *q, Data: data(), W: core.Range(10000, 30000, *steps), O: core.Opts{Procs: *procs, Optimizers: "none"}}, Event: *ev, PoolPoints: *pp}
-	t0 := time.Now()
-	e := &explore.Explorer{Sc: sc, D: *D}
-	var rootRes *core.Result
-	e.Check = func(o *explore.Obs, s explore.Sched) (string, string) {
-		if o.Run.Deadlock {
-			return "deadlock", fmt.Sprint(o.Run.BlockedOps)
-		}
-		if len(o.Run.Blocked) > 0 {
-			return "leak", fmt.Sprint(o.Run.BlockedOps)
-		}
-		if len(o.Panics) > 0 {
-			return "panic@" + o.Panics[0].Where, o.Panics[0].Val
-		}
-		if rootRes != nil && *ev == "" {
-			if sym, det := core.Diff(rootRes, o.Res, false); sym != "" {
-				return "sched:" + sym, det
-			}
-		}
-		if *ev != "" && o.CancelRan {
-			if o.ExecErr == nil {
-				if sym, det := core.Diff(rootRes, o.Res, false); sym != "" {
-					return "partial-result:" + sym, det
-				}
-			}
-		}
-		return "", ""
+	w := core.Range(*start, *step, *n)
+	if *step == 0 {
+		w = core.Instant(*start)
 	}
-	root := explore.RunOnce(sc, explore.Sched{EventStep: -1})
-	rootRes = root.Res
-	fmt.Printf("root: steps=%d threads=%d res=%s panics=%d mon=%v blocked=%v\n", len(root.Run.Trace), root.Run.Threads, root.Res, len(root.Panics), root.Mon, root.Run.BlockedOps)
-	if *ev == "" {
-		_, err := e.Explore(-1)
-		fmt.Println("err:", err)
-	} else {
-		for k := 0; k <= e.Stats.MaxLen || k == 0; k++ {
-			_, err := e.Explore(k)
-			if err != nil {
-				fmt.Println("err:", err)
-				break
-			}
-			e.Stats.EventsTried++
-		}
-	}
-	el := time.Since(t0)
-	fmt.Printf("D=%d execs=%d steps=%d maxlen=%d outcomes=%d fails=%v  %.2fs (%.0f exec/s)\n", *D, e.Stats.Executions, e.Stats.Steps, e.Stats.MaxLen, len(e.Stats.Outcomes), e.FailCnt, el.Seconds(), float64(e.Stats.Executions)/el.Seconds())
-	for i, f := range e.Failures {
-		if i < 5 {
-			fmt.Printf("  FAIL %s: %s %+v\n", f.Symptom, f.Detail, f.Sched)
-		}
+	cs := &core.Case{Q: *q, Data: gen.Dataset(*ds), W: w, O: core.Opts{Optimizers: *opt, LookbackMs: *lb, QLookbackMs: *qlb, Procs: *procs}}
+	st, _ := core.BuildStore(cs.Data)
+	out := core.RunEngine(cs, st)
+	ref := core.RunRef(cs, st)
+	sym, det := core.Diff(ref, out.Res, false)
+	fmt.Printf("engine: %s\nref:    %s\nsym=%s det=%s\npanics=%v mon=%v wf=%v leaked=%d hang=%v\n", out.Res, ref, sym, det, out.Panics, out.Mon, out.WF, out.Leaked, out.Hang)
+	if len(os.Args) > 100 {
+		json.Marshal(cs)
 	}
 }
